@@ -123,6 +123,16 @@ def Separated : List Seg → Prop
 /-- a segment name without braces or colon (what one writes between `{` and `}`) -/
 def plainName (name : List Char) : Prop := '{' ∉ name ∧ '}' ∉ name ∧ ':' ∉ name
 
+/-- a routing descent: try the definitions one after the other on the same `Path` (a failed
+step leaves it untouched, a successful one advances it); `none` = one of the steps panicked -/
+def stepAll : List ResourceDef → PathState → Option PathState
+  | [], st => some st
+  | rd :: rest, st =>
+    match rd.captureMatchInfo st with
+    | .panic => none
+    | .noMatch => stepAll rest st
+    | .matched st' => stepAll rest st'
+
 /-- the substring of `path` between two byte offsets (both on character boundaries) -/
 def Substr (path : List Char) (st en : Nat) (w : List Char) : Prop :=
   ∃ a b, path = a ++ w ++ b ∧ st = blen a ∧ en = blen a + blen w
